@@ -641,6 +641,18 @@ func delayClamped(p *Program, s *SQLStmt) bool {
 					}
 				}
 			}
+			// delay = max(delay, 0)
+			for _, ins := range b.Instrs {
+				if call, ok := ins.(*ssa.Call); ok {
+					if bi, ok := call.Call.Value.(*ssa.Builtin); ok && bi.Name() == "max" && namedName(call.Type()) == "Duration" {
+						for _, a := range call.Call.Args {
+							if isIntConst(a, 0) {
+								return true
+							}
+						}
+					}
+				}
+			}
 		}
 	}
 	return false
